@@ -71,6 +71,9 @@ Qed.
 Lemma rawpart_eq_emb (x p : part) : rawpart_eq (raw_of_part x) (raw_of_part p) = Ok (part_eqb x p).
 Proof. destruct x, p; reflexivity. Qed.
 
+Lemma rawpart_eq_emb_sym (x p : part) : rawpart_eq (raw_of_part p) (raw_of_part x) = Ok (part_eqb x p).
+Proof. destruct x, p; cbn [raw_of_part rawpart_eq part_eqb]; try reflexivity; rewrite Z.eqb_sym; reflexivity. Qed.
+
 (* ------------------------------------------------------------------ the loop of as_memory_map *)
 
 (* any loop body that, on the item representing r, performs the model's add_resource call and goes on *)
